@@ -1,7 +1,7 @@
 (* Extraction of the executable models (ExtrOcamlBasic only; Z, N, nat stay
    the extracted inductives).  Roots are listed explicitly. *)
 From Coq Require Import Extraction ExtrOcamlBasic.
-From VV Require Import SrcFacts Bits Comment Blocking Overlap Pcm VFile Bitrate EncSetup Fl Setup Codebook PacketDec Pack Seek_lemmas SeekH_lemmas SeekE_lemmas.
+From VV Require Import SrcFacts Bits Comment Blocking Overlap Pcm VFile Bitrate EncSetup Fl Setup Codebook PacketDec Pack Seek_lemmas SeekH_lemmas SeekE_lemmas Lap_lemmas.
 Extraction Language OCaml.
 Extraction "model.ml"
   (* SrcFacts *) encode_vendor_string general_vendor_string
@@ -12,7 +12,7 @@ Extraction "model.ml"
      dec_pcmout dec_read dec_run dec_lapout to_dblock
   (* Overlap *) blockin_buf lapout_buf spec_out pkts half
   (* Pcm *) decode_b32 ftoi pack_sample pack_frames read_frames
-  (* VFile *) open_file read_float read_fuel raw_seek pcm_seek_page pcm_seek raw_tell pcm_total set_hs halfrate seek_hyps seek_hyps_h seek_hyps_e seek_end_hyps start_hyps
+  (* VFile *) open_file read_float read_fuel raw_seek pcm_seek_page pcm_seek pcm_seek_lap pcm_seek_page_lap raw_seek_lap raw_tell pcm_total set_hs halfrate seek_hyps seek_hyps_h seek_hyps_e seek_end_hyps start_hyps lap_hyps
   (* Bitrate *) addblock
   (* EncSetup *) decode_b64 mk_template setup_templates s_init sstep nominal_eff
   (* Setup/Codebook/PacketDec *) h_init headerin synthesis_init synthesis encode_b32 setup_packet ident_packet.
